@@ -211,11 +211,41 @@ Definition set_z (cb : option zcallback) (dz : Z) (e1 e2 : zedge) (ip : pt3) : p
       f (e_bot e2) (e_top e2) (e_bot e1) (e_top e1) (erase ip, z)
   end.
 
+(* ---------- ClipperBase::DoSplitOp: the ring surgery and the flow of z ---------- *)
+(* The output ring is given starting at prevOp: [prevOp; splitOp; splitOp.next; nextNextOp; rest ...].  The geometric
+   decisions are parameters (the harness derives them with the same library calls): [sg_ip] = the local Point64 ip after
+   GetSegmentIntersectPt (default-constructed, so z = 0 unless that function copied an end point), [sg_small] =
+   |Area(ring)| < 2 (ring disposed), [sg_keep] = the cut-off triangle is kept as a ring of its own.
+   The callback is invoked once, on the local ip, BEFORE ip is used; both new OutPts are copies of that ip.
+   Result: (kept ring from prevOp | disposed, new ring from newOp | none). *)
+Record split_geom := { sg_ip : pt3; sg_small : bool; sg_keep : bool }.
+
+Definition split_ip (cb : option zcallback) (prev split snext nn : pt3) (g : split_geom) : pt3 :=
+  match cb with Some f => f prev split snext nn (sg_ip g) | None => sg_ip g end.
+
+Definition do_split_op_z (cb : option zcallback) (ring : list pt3) (g : split_geom)
+  : option (option (list pt3) * option (list pt3)) :=
+  match ring with
+  | prev :: split :: snext :: nn :: rest =>
+      let ip := split_ip cb prev split snext nn g in
+      if sg_small g then Some (None, None)
+      else
+        let kept := if point_eqb3 ip prev || point_eqb3 ip nn then prev :: nn :: rest
+                    else prev :: ip :: nn :: rest in
+        Some (Some kept, if sg_keep g then Some [ip; split; snext] else None)
+  | _ => None                                   (* fewer than four OutPts: FixSelfIntersects never calls it *)
+  end.
+
 (* ---------- sanity ---------- *)
 Local Open Scope Z_scope.
 Example ex_strip_z : strip_duplicates_z [mk3 0 0 5; mk3 0 0 6; mk3 1 0 7; mk3 0 0 8] true = Ok [mk3 0 0 5; mk3 1 0 7].
 Proof. vm_compute. reflexivity. Qed.
 Example ex_translate_z : translate_path_z [mk3 1 2 9] 10 20 = [mk3 11 22 0].
+Proof. reflexivity. Qed.
+Example ex_split_z :
+  do_split_op_z (Some (fun _ _ _ _ p => (erase p, 100))) [mk3 0 0 1; mk3 10 10 2; mk3 10 0 3; mk3 0 9 4; mk3 (-5) 5 5]
+                {| sg_ip := mk3 5 5 0; sg_small := false; sg_keep := true |}
+  = Some (Some [mk3 0 0 1; mk3 5 5 100; mk3 0 9 4; mk3 (-5) 5 5], Some [mk3 5 5 100; mk3 10 10 2; mk3 10 0 3]).
 Proof. reflexivity. Qed.
 Example ex_setz_subject_first :
   set_z (Some (fun _ _ _ _ p => p)) 99 {| e_clip := true; e_bot := mk3 0 0 1; e_top := mk3 5 5 2 |}
